@@ -38,6 +38,14 @@ namespace cxx11_atomic {
 }} // namespace cds::cxx11_atomic
 
 //@cond
+#if defined(KHIZMAX_LIBCDS_VERIF)
+    // Verification build: instrumented atomics (every atomic operation is a scheduling point).
+    // The header is supplied by the verification framework (-I<verif>/rt).
+#   include <cdsverif/atomic.h>
+    namespace atomics = cdsverif::atomics;
+#   define CDS_CXX11_ATOMIC_BEGIN_NAMESPACE namespace cdsverif { namespace atomics {
+#   define CDS_CXX11_ATOMIC_END_NAMESPACE }}
+#else
 #if defined(CDS_USE_BOOST_ATOMIC)
     // boost atomic
 #   include <boost/version.hpp>
@@ -62,6 +70,7 @@ namespace cxx11_atomic {
 #   define CDS_CXX11_ATOMIC_BEGIN_NAMESPACE namespace std {
 #   define CDS_CXX11_ATOMIC_END_NAMESPACE }
 #endif
+#endif // KHIZMAX_LIBCDS_VERIF
 //@endcond
 
 namespace cds {
